@@ -5,7 +5,7 @@ import re
 from ..absint import Explorer, UNKNOWN
 from ..astutil import norm, const, NO, compare, tail, names, fmt_parts, fmt_shape
 from ..index import AnalysisError, walk_own
-from .common import (site, key, calls_to, method_calls, nodes_with, guard_check, sample_polarity, cfg_attr, rname)
+from .common import (site, key, calls_to, method_calls, nodes_with, guard_check, sample_polarity, cfg_attr, rname, resp_var)
 
 WSGI = "gunicorn.http.wsgi"
 RESP = WSGI + ".Response"
@@ -708,7 +708,56 @@ def late_error(ctx, rid="C02.R4"):
                       "the truncated response would be followed by another response on the same connection", "shutdown + close + StopIteration")
 
 
+def late_oserror(ctx, rid="C02.R4"):
+    """... and the OSError family, which the request handlers hand to handle() *unconditionally* (`except OSError: reraise`):
+    an ssl.SSLError other than EOF raised by a body write lands in handle()'s `except ssl.SSLError` clause, which calls
+    handle_error() -- a complete "403 Forbidden" page and a second access record for a request whose 200 head is on the
+    wire.  Either the handler's OSError clause looks at `headers_sent` itself, or handle_error() -- which only gets the
+    request -- can tell: Response.send_headers leaves a mark on the request, and handle_error evaluated with that mark set
+    writes nothing and logs no access record."""
+    repo = ctx.repo
+    from .c05 import _landing
+    from ..absint import SpecObj, Inst
+    fs = ctx.fn(repo.func(WSGI + ".Response.send_headers"))
+    marks = set()
+    for n in walk_own(fs.node):
+        if isinstance(n, ast.Assign) and isinstance(n.value, ast.Constant) and n.value.value is True:
+            for t in n.targets:
+                if isinstance(t, ast.Attribute) and norm(t.value) == "self.req":
+                    marks.add(t.attr)
+    fhe = ctx.fn(repo.func("gunicorn.workers.base.Worker.handle_error"))
+    quiet = None
+    if marks:
+        req = SpecObj(uri="/x", method="GET", **{m: True for m in marks})
+        tr = {"gunicorn.util.write_error": lambda ex, c, env: "page", ".access": lambda ex, c, env: "record"}
+        outs = Explorer(fhe, call_trace=tr).run(fhe.cfg.entry, {fhe.params[1]: req, fhe.params[4]: Inst("ssl.SSLError", args=(1, "x")), fhe.params[3]: ("10.0.0.1", 5)})
+        effects = set(q_ for o in outs for q_, v in o.env.get(Explorer.TRACE, ()))
+        quiet = not effects and bool(outs)
+    for q in HANDLERS:
+        f = ctx.fn(repo.func(q))
+        resp = resp_var(repo, f)[0]
+        wcalls = [c for c in method_calls(f, ("write", "write_file", "close")) if isinstance(c.func.value, ast.Name) and c.func.value.id == resp]
+        ctx.need(wcalls, "%s: no write through the response object in %s" % (rid, q))
+        h = _landing(repo, f, wcalls[0], "ssl.SSLError", follow_reraise=False)
+        local = h is not None and any(isinstance(x, ast.Attribute) and x.attr == "headers_sent" for x in ast.walk(h))
+        if local:
+            ctx.check(rid, True, key(f, "late-guard-covers-os-errors"), site(f, wcalls[0]), "", "the OSError clause looks at headers_sent")
+            continue
+        fh = ctx.fn(repo.func(q.rsplit(".", 1)[0] + ".handle"))
+        hreq = [c for c in walk_own(fh.node) if isinstance(c, ast.Call) and (repo.call_target(fh.module, fh, c) or "").endswith(".handle_request")]
+        ctx.need(hreq, "%s: %s does not call handle_request" % (rid, fh.qualname))
+        h2 = _landing(repo, fh, hreq[0], "ssl.SSLError")
+        calls_err = h2 is not None and any(isinstance(x, ast.Call) and (repo.call_target(fh.module, fh, x) or "").endswith(".handle_error") for st in h2.body for x in ast.walk(st))
+        ctx.check(rid, (not calls_err) or quiet is True, key(f, "late-guard-covers-os-errors"), site(f, wcalls[0]),
+                  "an ssl.SSLError (other than EOF) raised while the body is written is re-raised by %s whatever has been sent, and %s routes it to handle_error(): a complete '403 Forbidden' page is "
+                  "written into the response in progress and a second access record is logged for the request. %s" % (
+                      f.short, fh.short, "Response.send_headers leaves no mark on the request that handle_error (which is only given the request) could test" if not marks else
+                      "handle_error evaluated with the mark(s) %s set on the request still writes / logs" % sorted(marks)),
+                  "OSError after the head: no error page, no second record")
+
+
 def r4(ctx):
+    late_oserror(ctx, "C02.R4")
     repo = ctx.repo
     for q in HANDLERS:
         f = ctx.fn(repo.func(q))
